@@ -4,6 +4,7 @@ what an admitted customer step guarantees (`Adm`, read off the mask with the ext
 operators), the route-continuation invariant `Cont`, and the visited-set bookkeeping.  No Mathlib.
 -/
 import Rl4co.Env.Mtvrp
+import Rl4co.Proofs.MtvrpParams
 import Rl4co.Spec.Mtvrp
 
 namespace Rl4co.Mtvrp
@@ -37,7 +38,7 @@ theorem cmpInf_le_of_lt {x : Int} {o : Option Int} (h : cmpInf .lt x o = true) :
   | some y => simp only [cmpInf, Cmp.eval, decide_eq_true_eq] at h ⊢; omega
 
 theorem adm_of_mask (i : Inst) (s : State) (a : Nat) (h0 : a ≠ 0) (hm : mask i s a = true) : Adm i s a := by
-  simp only [mask, h0, if_false, canVisit, meetsDemand, Params.mtvrpMaskTwCmp, Params.mtvrpMaskDepotCmp,
+  simp only [mask_def, h0, if_false, canVisit, meetsDemand, Params.mtvrpMaskTwCmp, Params.mtvrpMaskDepotCmp,
     Params.mtvrpMaskLimitCmp, Params.mtvrpMaskCapLCmp, Params.mtvrpMaskCapBCmp, Bool.and_eq_true,
     Bool.or_eq_true, Bool.not_eq_true', cmpInf_not_gt] at hm
   obtain ⟨⟨⟨⟨h1, h2⟩, h3⟩, h4⟩, h5⟩ := hm
@@ -66,7 +67,7 @@ theorem step_fields (i : Inst) (s : State) (a : Nat) (h0 : a ≠ 0) :
     (step i s a).cur = a ∧ (step i s a).len = s.len + i.D s.cur a ∧
     (step i s a).time = max (s.time + i.T s.cur a) (i.early a) + i.service a ∧
     (step i s a).usedL = s.usedL + i.dL a ∧ (step i s a).usedB = s.usedB + i.dB a := by
-  simp [step, h0]
+  simp [step_def, h0]
 
 theorem excl_dL {i : Inst} (hx : Excl i) {a : Nat} (h0 : a ≠ 0) (ha : a < i.n + 1) (hb : 0 < i.dB a) :
     i.dL a ≤ 0 := by
@@ -180,7 +181,7 @@ theorem cont_of_run (i : Inst) (hx : Excl i) (hcap : 0 ≤ i.cap) {s s' : State}
       obtain ⟨h2, h3⟩ := hr
       subst h2 h3
       refine ⟨fun h => absurd rfl h, ?_⟩
-      have := ih (by simp [step, hcap]) (by simp [step, hcap]) r1 rs1 h1
+      have := ih (by simp [step_def, hcap]) (by simp [step_def, hcap]) r1 rs1 h1
       intro r' hr' hne
       rw [h1] at hr'
       rcases List.mem_cons.mp hr' with hh | hh
@@ -222,20 +223,20 @@ theorem visits_of_run (i : Inst) {s s' : State} {as : List Nat} (h : Run env i s
         have := hvis (by omega)
         simp [hv] at this
       · have : (step i s a).vis j = true := by
-          simp only [step, upd_apply]; split <;> simp [hv]
+          simp only [step_def, upd_apply]; split <;> simp [hv]
         exact ih2 j hj this hh
     · intro j hj
       rw [List.count_cons]
       by_cases hja : a = j
       · subst hja
-        have : (step i s a).vis a = true := by simp [step]
+        have : (step i s a).vis a = true := by simp [step_def]
         have := ih2 a hj this
         simp [List.count_eq_zero_of_not_mem this]
       · have := ih3 j hj
         simp [hja]; exact this
     · intro j
       rw [ih4 j]
-      simp only [step, upd_apply, List.mem_cons]
+      simp only [step_def, upd_apply, List.mem_cons]
       by_cases hja : j = a <;> simp [hja]
 
 theorem all_visited_of_done (i : Inst) (s : State) (hd : env.done i s = true) :
